@@ -561,6 +561,19 @@ class ReaderExec:
                     inner[0][3] = INT_DEC[nm] + (inner[0][3] or "")
                 out.extend(inner)
                 return
+            if nm == "from_bytes" and isinstance(e.func, ast.Attribute) and ast.unparse(e.func.value) == "int" and len(e.args) >= 1:
+                # int.from_bytes(<read>, order, signed=True): the helpers' spelling is unsigned, so this form only survives
+                # normalisation when it is signed -- a different codec from the unsigned writer
+                order = e.args[1] if len(e.args) > 1 else next((k.value for k in e.keywords if k.arg == "byteorder"), None)
+                o = {"little": "LE", "big": "BE"}.get(order.value if isinstance(order, ast.Constant) else None)
+                signed = any(k.arg == "signed" and not (isinstance(k.value, ast.Constant) and k.value.value is False) for k in e.keywords)
+                inner = []
+                self._expr(e.args[0], inner, bound, wrap=(wrap or ""))
+                if o and len(inner) == 1 and inner[0][1] == "bytes":
+                    inner[0][1] = "int"
+                    inner[0][3] = o + ("-signed" if signed else "") + (inner[0][3] or "")
+                out.extend(inner)
+                return
             if nm == "read_varint" and e.args and self._is_stream(e.args[0]):
                 out.append(["read", "varint", None, "", bound])
                 return
